@@ -123,7 +123,10 @@ def rqs(V, zero):
     return [("reduced multiplier fits a positive int16", z3.And(L(rm) >= 0, L(rm) <= 32767)),
             ("reduced shift == full shift - 16, in [0, 47]", z3.And(L(rshift) == L(shift) - 16, L(rshift) >= 0, L(rshift) <= 47)),
             ("reduced pair within 2^-14 (relative) of the full pair", err * 16384 <= L(q)),
-            ("rounds to nearest unless saturated", z3.Or(err <= 32768, L(rm) == 32767))]
+            ("rounds to nearest unless saturated", z3.Or(err <= 32768, L(rm) == 32767)),
+            # the TFLite reference for 16-bit activations with 64-bit bias reduces the Q31 multiplier as (m + 2^15) >> 16 below 0x7FFF0000, else 0x7FFF
+            ("the reduced multiplier is the reference reduction (half-way values round up)",
+             L(rm) == z3.If(L(q) < 32767 * 65536, (L(q) + 32768) / 65536, 32767))]
 
 
 def _special_values():
